@@ -87,6 +87,8 @@ func main() {
 		Skipped   []string `json:"skipped"`
 		Sites     []string `json:"sites"`
 		Yields    []string `json:"yield_sites"`
+		Seams     []string `json:"network_seams"`
+		CmdFiles  []string `json:"cmd_files"`
 	}{}
 	pkgs := make([]string, 0, len(dirs))
 	for p := range dirs {
@@ -126,6 +128,7 @@ func main() {
 				return true
 			})
 			hasImport := false
+			keepHTTP := false
 			// cooperative yield before every x.Lock() statement in the packages
 			// whose lock-granularity interleavings the simulator explores
 			if yieldPkgs[pkg] {
@@ -151,6 +154,30 @@ func main() {
 					return true
 				})
 			}
+			// network seams: http.ListenAndServe -> verifhook.ListenAndServe (call or value form);
+			// config_util.NewClientFromConfig(...) -> verifhook.WrapClient(config_util.NewClientFromConfig(...))
+			ast.Inspect(f, func(nd ast.Node) bool {
+				off := func(p token.Pos) int { return fset.Position(p).Offset }
+				if sel, ok := nd.(*ast.SelectorExpr); ok {
+					if x, ok := sel.X.(*ast.Ident); ok && x.Name == "http" && sel.Sel.Name == "ListenAndServe" {
+						edits = append(edits, edit{off(sel.Pos()), off(sel.End()), "verifhook.ListenAndServe"})
+						pos := fset.Position(sel.Pos())
+						report.Seams = append(report.Seams, fmt.Sprintf("%s:%d http.ListenAndServe", strings.TrimPrefix(pos.Filename, *repo+"/"), pos.Line))
+						hasImport = true
+						keepHTTP = true
+					}
+				}
+				if call, ok := nd.(*ast.CallExpr); ok {
+					if sel, ok := call.Fun.(*ast.SelectorExpr); ok && sel.Sel.Name == "NewClientFromConfig" {
+						edits = append(edits, edit{off(call.Pos()), off(call.Pos()), "verifhook.WrapClient("})
+						edits = append(edits, edit{off(call.End()), off(call.End()), ")"})
+						pos := fset.Position(call.Pos())
+						report.Seams = append(report.Seams, fmt.Sprintf("%s:%d NewClientFromConfig", strings.TrimPrefix(pos.Filename, *repo+"/"), pos.Line))
+						hasImport = true
+					}
+				}
+				return true
+			})
 			ast.Inspect(f, func(nd ast.Node) bool {
 				rs, ok := nd.(*ast.RangeStmt)
 				if !ok {
@@ -243,6 +270,9 @@ func main() {
 				cur = e.end
 			}
 			buf.Write(src[cur:])
+			if keepHTTP {
+				buf.WriteString("\nvar _ = http.StatusOK\n")
+			}
 			// sanity: must parse
 			if _, err := parser.ParseFile(token.NewFileSet(), names[fi], buf.Bytes(), 0); err != nil {
 				fmt.Fprintf(os.Stderr, "rewritten %s does not parse: %v\n", names[fi], err)
@@ -254,6 +284,47 @@ func main() {
 			overlay[names[fi]] = dst
 		}
 	}
+	// cmd/kvass as an importable package (tkestack.io/kvass/pkg/verifcmd): the files are taken as
+	// they are, only the package clause changes, plus one file exporting the two commands' RunE
+	cmdDir := filepath.Join(*repo, "cmd/kvass")
+	cents, err := os.ReadDir(cmdDir)
+	must(err)
+	for _, e := range cents {
+		nm := e.Name()
+		if !strings.HasSuffix(nm, ".go") || strings.HasSuffix(nm, "_test.go") {
+			continue
+		}
+		full := filepath.Join(cmdDir, nm)
+		src, err := os.ReadFile(full)
+		must(err)
+		cf, err := parser.ParseFile(fset, full, src, parser.PackageClauseOnly)
+		must(err)
+		a, b := fset.Position(cf.Name.Pos()).Offset, fset.Position(cf.Name.End()).Offset
+		var buf bytes.Buffer
+		buf.Write(src[:a])
+		buf.WriteString("verifcmd")
+		buf.Write(src[b:])
+		dst := filepath.Join(*out, "cmd__"+nm)
+		must(os.WriteFile(dst, buf.Bytes(), 0o644))
+		overlay[filepath.Join(*repo, "pkg/verifcmd", nm)] = dst
+		report.CmdFiles = append(report.CmdFiles, "cmd/kvass/"+nm)
+	}
+	exp := `package verifcmd
+
+import "github.com/prometheus/client_golang/prometheus"
+
+// every "process" has its own metrics registry, as every real process has
+func freshProcess() { promRegistry = prometheus.NewRegistry() }
+
+// RunSidecar runs the real "kvass sidecar" command body.
+func RunSidecar(args []string) error { freshProcess(); return sidecarCmd.RunE(sidecarCmd, args) }
+
+// RunCoordinator runs the real "kvass coordinator" command body.
+func RunCoordinator(args []string) error { freshProcess(); return coordinatorCmd.RunE(coordinatorCmd, args) }
+`
+	expDst := filepath.Join(*out, "cmd__zz_verif_export.go")
+	must(os.WriteFile(expDst, []byte(exp), 0o644))
+	overlay[filepath.Join(*repo, "pkg/verifcmd/zz_verif_export.go")] = expDst
 	report.Rewritten = len(report.Sites)
 	hookDst := filepath.Join(*out, "verifhook.go")
 	hb, err := os.ReadFile(*hook)
